@@ -285,6 +285,8 @@ func runC16(c *Ctx, r *Report) {
 	importRules(c, r, "C13", []string{"R-C13.1"}, "R-C16.10")
 	r.Doc("R-C16.12", "a log rebuilt from stored blocks keeps the ordering it was configured with (adopted from C09: the bounded merge truncates the linearisation of the log's own comparator)")
 	importRules(c, r, "C09", []string{"R-C09.6"}, "R-C16.12")
+	r.Doc("R-C16.13", "every writer stamps with its own key as clock id, also after an identity change (adopted from C04: writers sharing a clock id produce full ties, which the default ordering breaks by position — the bounded merge then keeps other entries than the tail of the unbounded one)")
+	importRules(c, r, "C04", []string{"R-C04.1"}, "R-C16.13")
 	r.Doc("R-C16.11", "nothing is allocated for the size bound itself: every sized allocation is bounded by a collection that exists (adopted from C15: a bound far larger than the merged size must behave like the unbounded merge, not run out of memory)")
 	importRules(c, r, "C15", []string{"R-C15.15"}, "R-C16.11")
 	r.Doc("R-C16.5", "the bounded merge computes its candidates, validates, applies and truncates in one critical section of the destination")
